@@ -45,6 +45,10 @@ def repo_path():
     return os.path.realpath(os.environ.get("RTMON_REPO", "/repo"))
 
 
+def foreign_tree():
+    return repo_path() != os.path.realpath("/repo")
+
+
 def repo_ident(repo):
     import hashlib
     h = hashlib.sha256()
@@ -167,8 +171,8 @@ def aggregate(pid, prop, tier, seed, rundir, nshards, status, t0, replay=False):
         else:
             unlisted.append(e)
 
-    # ---- replay files
-    rdir = os.path.join(VERIF, "replays")
+    # ---- replay files (runs against another tree than /repo keep theirs apart)
+    rdir = os.path.join(VERIF, "replays") if not foreign_tree() else os.path.join(VERIF, "replays", "alt-%d" % os.getpid())
     os.makedirs(rdir, exist_ok=True)
     ident = repo_ident(repo)
 
@@ -271,8 +275,11 @@ def aggregate(pid, prop, tier, seed, rundir, nshards, status, t0, replay=False):
         "violations": len(unlisted),
     }
     if not replay:
-        os.makedirs(os.path.join(VERIF, "evidence"), exist_ok=True)
-        with open(os.path.join(VERIF, "evidence", "%s.json" % pid), "w") as f:
+        # evidence/<id>.json always describes a run against /repo itself; runs against scratch trees
+        # (seeded defects, mutation study, the pre-fix commit) write theirs next to their event logs
+        edir = os.path.join(VERIF, "evidence") if not foreign_tree() else rundir
+        os.makedirs(edir, exist_ok=True)
+        with open(os.path.join(edir, "%s.json" % pid), "w") as f:
             json.dump(ev, f, indent=1, sort_keys=False, allow_nan=False)
     return ev, lines, kf_lines, inconclusive, unlisted
 
@@ -301,13 +308,16 @@ def check(pid, tier, seed, shards=None, budget=None, replay=None, quiet=False):
     prop = importlib.import_module("rtmon.props." + pid.lower())
     if getattr(prop, "MAX_SHARDS", None):
         cfg["shards"] = min(cfg["shards"], prop.MAX_SHARDS)
-    rundir = os.path.join(VERIF, "evidence", ".run", pid + ("-replay" if replay else ""))
+    rundir = os.path.join(VERIF, "evidence", ".run", pid + ("-replay" if replay else "") + ("-alt-%d" % os.getpid() if foreign_tree() else ""))
     os.makedirs(rundir, exist_ok=True)
     for f in os.listdir(rundir):
         os.unlink(os.path.join(rundir, f))
     status = run_shards(pid, tier, seed, cfg["shards"], cfg["budget"], cfg["timeout"], rundir, replay)
     ev, vlines, kf_lines, inconclusive, unlisted = aggregate(pid, prop, tier, seed, rundir, cfg["shards"], status, t0, replay=bool(replay))
     cv = ev["coverage"]
+    if foreign_tree() and not os.environ.get("RTMON_KEEP_LOGS"):
+        import shutil
+        shutil.rmtree(rundir, ignore_errors=True)
     for l in kf_lines:
         print(l)
     for l in vlines:
